@@ -70,6 +70,7 @@ pub struct SchedReader {
     pub fault: Option<usize>,
     pub rng: Rng,
     pub whole: bool,
+    pub one: bool,
 }
 impl SchedReader {
     fn deliver(&mut self, buf: &mut [u8]) -> Result<usize, ()> {
@@ -86,7 +87,9 @@ impl SchedReader {
             return Ok(0); // EOF
         }
         let mut n = buf.len().min(avail);
-        if !self.whole {
+        if self.one {
+            n = 1;
+        } else if !self.whole {
             n = 1 + self.rng.below(n as u64) as usize;
         }
         if let Some(k) = self.fault {
@@ -172,7 +175,7 @@ pub fn eval(ctx: &mut Ctx, op: &str, args: &[Sexp]) -> Option<String> {
             let stream = unhex(args.get(6)?.atom()?)?;
             let mut scratch_pages = Pages::new(&vec![0xEEu8; scratch_len], true);
             let sbase = scratch_pages.slice().as_ptr() as usize;
-            let rd = SchedReader { data: stream.clone(), pos: 0, fault, rng: Rng::new(sched), whole: sched == 0 };
+            let rd = SchedReader { data: stream.clone(), pos: 0, fault, rng: Rng::new(sched), whole: sched == 0, one: sched == 1 };
             let r = guard(|| with_ty(&t, || {
                 let mut out = String::from("rio");
                 let mut scratch: &mut [u8] = scratch_pages.slice_mut();
@@ -181,6 +184,7 @@ pub fn eval(ctx: &mut Ctx, op: &str, args: &[Sexp]) -> Option<String> {
                     let mut rd = rd;
                     for _ in 0..count {
                         BORROWS.with(|b| b.borrow_mut().clear());
+                        let scratch_left = scratch.len();
                         let before = rd.pos;
                         match postcard::from_io::<DynVal, _>((rd, scratch)) {
                             Ok((v, (rd2, rest))) => {
@@ -193,6 +197,9 @@ pub fn eval(ctx: &mut Ctx, op: &str, args: &[Sexp]) -> Option<String> {
                             }
                             Err(e) => {
                                 out.push_str(&format!(" | err {}", err_name(&e)));
+                                if let Some(w) = must_succeed(&t, &stream, slice_cursor, fault, scratch_left) {
+                                    return Err(w);
+                                }
                                 return Ok(out);
                             }
                         }
@@ -202,6 +209,7 @@ pub fn eval(ctx: &mut Ctx, op: &str, args: &[Sexp]) -> Option<String> {
                     let mut rd = EioR(rd);
                     for _ in 0..count {
                         BORROWS.with(|b| b.borrow_mut().clear());
+                        let scratch_left = scratch.len();
                         let before = rd.0.pos;
                         match postcard::from_eio::<DynVal, _>((rd, scratch)) {
                             Ok((v, (rd2, rest))) => {
@@ -214,6 +222,9 @@ pub fn eval(ctx: &mut Ctx, op: &str, args: &[Sexp]) -> Option<String> {
                             }
                             Err(e) => {
                                 out.push_str(&format!(" | err {}", err_name(&e)));
+                                if let Some(w) = must_succeed(&t, &stream, slice_cursor, fault, scratch_left) {
+                                    return Err(w);
+                                }
                                 return Ok(out);
                             }
                         }
@@ -263,6 +274,22 @@ fn post_ok(t: &DTy, v: &DVal, stream: &[u8], cursor: &mut usize, consumed: usize
         prev = p - sbase + l;
     }
     None
+}
+
+/// the reader path failed: it had to succeed if slice decoding of the same bytes succeeds, the
+/// scratch buffer is large enough and neither a fault nor the end of the stream lies inside the message
+fn must_succeed(t: &DTy, stream: &[u8], cursor: usize, fault: Option<usize>, scratch_left: usize) -> Option<String> {
+    match with_ty(t, || postcard::take_from_bytes::<DynVal>(&stream[cursor..])) {
+        Ok((v, rest)) => {
+            let end = stream.len() - rest.len();
+            if need(&v.0) <= scratch_left && fault.map(|k| k >= end).unwrap_or(true) {
+                Some(format!("the reader path failed on a message that slice decoding accepts (bytes {}..{}, scratch {} >= need {})", cursor, end, scratch_left, need(&v.0)))
+            } else {
+                None
+            }
+        }
+        Err(_) => None,
+    }
 }
 
 /// scratch bytes a value needs through the reader: str/bytes/char payloads and floats
